@@ -21,8 +21,16 @@ class CheckError(Exception):
 
 
 def _source_files():
-    out = subprocess.run(["git", "-C", REPO, "ls-files", "-co", "--exclude-standard"],
-                         capture_output=True, text=True, check=True).stdout.split("\n")
+    r = subprocess.run(["git", "-C", REPO, "ls-files", "-co", "--exclude-standard"], capture_output=True, text=True)
+    if r.returncode == 0 and os.path.exists(os.path.join(REPO, ".git")):
+        out = r.stdout.split("\n")
+    else:
+        # plain directory copy (self-tests): walk it, skipping build output
+        out = []
+        for root, dirs, files in os.walk(REPO):
+            dirs[:] = [d for d in dirs if d not in ("target", ".git")]
+            for f in files:
+                out.append(os.path.relpath(os.path.join(root, f), REPO))
     keep = []
     for f in out:
         if not f:
